@@ -41,6 +41,9 @@ def main() -> None:
             verdict = 'caught by thorough tier only'
         if meta.get('neutralised_by_fix'):
             verdict = f'no longer breaks the property (repaired defect {meta["neutralised_by_fix"]})'
+        if meta.get('not_claimed'):
+            verdict = 'not reported - outside the properties as stated (' + meta['history'].split(':', 1)[1].strip()[:150] + ')'
+            meta = dict(meta, history='')
         summary = meta.get('summary') or first_line(meta.get('needs_to_manifest', ''))
         if meta.get('history'):
             head = re.sub(r'\s*at first', '', meta['history'].split(';')[0].split(':')[0]).replace('(', '- ').replace(')', '')
@@ -51,7 +54,8 @@ def main() -> None:
     for r in rows:
         print('| ' + ' | '.join(r) + ' |')
     print(f'\n{len(rows)} seeded changes; {sum(r[4].startswith("caught") for r in rows)} caught by the quick tier; '
-          f'{sum("no longer breaks" in r[4] for r in rows)} neutralised by a repair of the unchanged tree.')
+          f'{sum("no longer breaks" in r[4] for r in rows)} neutralised by a repair of the unchanged tree; '
+          f'{sum(r[4].startswith("not reported") for r in rows)} not reported because it breaks no property as stated.')
 
 
 if __name__ == '__main__':
